@@ -96,6 +96,9 @@ THEOREMS = [
     # pLSCF under an orthogonal mixing of the channels: normal equations, certificate, two runs, rmfd2ac, poles (Props/C08MixPlscf.lean)
     "PV.C08.C08_mix_plscf_normal",
     "PV.C08.C08_mix_plscf_cert",
+    "PV.C08.C08_mix_plscf_order",
+    "PV.C08.C08_mix_plscf_rmfd",
+    "PV.C08.C08_mix_plscf_poles",
 ]
 RULE = (
     "metamorphic oracle on the real code: every algorithm class (FDD, EFDD, FSDD, SSIcov[cov_mm, cov_R], SSIdat, pLSCF[per, cor] and "
@@ -106,7 +109,10 @@ RULE = (
     "distinct = (class, transformation kind, method); correspondence: ssi.ac2mp at dt and dt/k against the model ac2mpSsi "
     "(the log(lam_d)*(1/dt) step inside the model, scipy's eig recorded; fn, xi, lam, phi to 1e-12) and the two model outputs "
     "related as C08_time_unit_ac2mp says; the unity normalisers of ssi.ac2mp, plscf.ac2mp_poly, fdd.FDD_mpe against "
-    "normalise / phiCell / Fdd.normalise (index picked identical incl. exact ties, values to 1e-12, NaN pattern for zero vectors)"
+    "normalise / phiCell / Fdd.normalise (index picked identical incl. exact ties, values to 1e-12, NaN pattern for zero vectors); "
+    "plscf.pLSCF itself on Sy and on R Sy Q^T (Q orthogonal: Haar, rational rotation, signed permutation; R = Q or an independent orthogonal R on "
+    "fewer reference rows; constraints LO and HI): Ad' = Q Ad Q^T, Bn' = R Bn Q^T to 1e-10 relative, orders whose coefficients move by more than "
+    "1e-12 under a rounding-level perturbation of Sy skipped; the same relation exactly in rationals between two runs of the model plscfOrder"
 )
 EXTRA_TRUSTED = [
     "that LAPACK/FFT return a valid factorisation for the transformed input too (the theorems quantify over all valid factorisations)",
